@@ -26,7 +26,7 @@ Inductive gpc :=
 | PUnsub1 | PUnsub2.                     (* cleared fn_next ; cleared fn_error *)
 
 Record gthread := { g_prog : list gcall; g_pc : gpc; g_late : bool }.
-   (* g_late: the call in progress began after a terminal callback had returned *)
+   (* g_late: the call in progress began after a terminal callback, or an unsubscribe call, had returned *)
 
 Inductive gevent :=
 | EvBegin (t : nat) (c : gcall)
@@ -34,7 +34,7 @@ Inductive gevent :=
 | EvCbRet (t : nat) (e : gev).
 
 Record gcfg := { g_n : bool; g_e : bool; g_c : bool;          (* slots present? *)
-                 g_termret : bool;                            (* a terminal callback has returned *)
+                 g_termret : bool;                            (* a terminal callback, or an unsubscribe call, has returned *)
                  g_thr : nat -> gthread;
                  g_trace : list gevent }.
 
@@ -70,7 +70,7 @@ Definition gstep (c : gcfg) (t : nat) : gcfg :=
   | PComp3 => put (g_n c) (g_e c) (g_c c) (g_termret c) (set_pc th (PInCb GC)) [EvCbStart t GC (g_late th)]
   | PInCb e => put (g_n c) (g_e c) (g_c c) (g_termret c || gterm e) (set_pc th PIdle) [EvCbRet t e]
   | PUnsub1 => put (g_n c) false (g_c c) (g_termret c) (set_pc th PUnsub2) []
-  | PUnsub2 => put (g_n c) (g_e c) false (g_termret c) (set_pc th PIdle) []
+  | PUnsub2 => put (g_n c) (g_e c) false true (set_pc th PIdle) []          (* unsubscribe returns *)
   end.
 
 Definition grun (sched : list nat) (c : gcfg) : gcfg := fold_left gstep sched c.
